@@ -137,15 +137,22 @@ def check(prop, tier, seed):
         functions.append(finfo)
     gen_s = time.time() - gen_t0
     workdir = tempfile.mkdtemp(prefix="pyvc_%s_" % prop)
+    prefer = {}
+    try:
+        with open(os.path.join(VERIF, "baseline", "%s.json" % prop)) as fh:
+            prefer = json.load(fh).get("by") or {}
+    except Exception:
+        prefer = {}
     try:
         d = verify.Discharger(eng, workdir=workdir, timeout_s=timeout_s, jobs=jobs,
-                              solvers=["z3new", "cvc5", "z3old"])
+                              solvers=["z3new", "cvc5", "z3old"], prefer=prefer)
         results = d.discharge_all(eng.obligations)
         # a second, longer attempt for anything left (so that load does not flip verdicts)
         retry = [i for i, r in enumerate(results) if r["status"] == "undischarged"]
         if retry and len(retry) <= 40:
             d2 = verify.Discharger(eng, workdir=workdir, timeout_s=timeout_s * 3, jobs=jobs, solvers=["z3new", "cvc5"])
             d2.cache, d2._bg, d2._str = d.cache, d._bg, getattr(d, "_str", None)
+            d2.no_slices = len(retry) > 6          # the sliced variants were tried in the first pass; repeat them with the long budget only for a few
             again = d2.discharge_all([eng.obligations[i] for i in retry])
             for i, r in zip(retry, again):
                 if r["status"] == "discharged":
@@ -206,7 +213,10 @@ def check(prop, tier, seed):
     if os.environ.get("PYVC_WRITE_BASELINE") and not failed and not not_extracted:
         os.makedirs(os.path.dirname(base_path), exist_ok=True)
         with open(base_path, "w") as fh:
-            json.dump({"labels": {fn: sorted(v) for fn, v in sorted(per_func.items())}}, fh, indent=0, sort_keys=True)
+            # "by": which strategy discharged an obligation that the first, short stage did not (tried first on later runs)
+            by = {r["name"]: r["by"] for r in obligations if r["status"] == "discharged" and r.get("by") and r["by"] not in ("syntactic",)
+                  and (r["time"] > 1.5 or "/slice" in r["by"])}
+            json.dump({"labels": {fn: sorted(v) for fn, v in sorted(per_func.items())}, "by": by}, fh, indent=0, sort_keys=True)
     # bounded stand-in / replay search (always run: it is also the source of concrete failing inputs)
     only = None
     twin = run_twin(prop, tier, seed, only)
